@@ -24,9 +24,22 @@ def run(ctx):
     for r in recs:
         tags[r["tag"]] = tags.get(r["tag"], 0) + 1
         ctx.distinct.add((r["tag"], len(r["in"]), tuple(x["k"] for x in r["results"])[:3]))
-    # writer side
+    # a reader with a key AND a dialect: spec-signed frames of dialect messages (canonical / trailing zeros kept / bytes beyond
+    # the known fields / unknown id) must be delivered, frames lengthened after signing must not
     defs = ctx.path("defs.json")
     ctx.run_mvh(["defs", "-out", defs])
+    rc, out = ctx.tlc("Gen_SignedDl", env={"DEFS": defs, "DIALECT": defs + ".allplus.json", "VSEED": ctx.seed}, tag="gen:signed_dl", timeout=900)
+    nvd = _stream.parse_vec_lines(out, ctx.path("sigdlvec.ndjson"))
+    if nvd < 20:
+        raise vf.Inconclusive("Gen_SignedDl produced %d vectors:\n%s" % (nvd, vf.tail(out, 30)))
+    trd = ctx.path("c06d.ndjson")
+    ctx.run_mvh(["c06d", "-aux", "c06", "-vectors", ctx.path("sigdlvec.ndjson"), "-out", trd, "-seed", ctx.seed, "-tier", ctx.tier])
+    drecs = _stream.validate_streams(ctx, trd, defs=defs, clause_filter=lambda c: c in READER)
+    for r in drecs:
+        tags[r["tag"]] = tags.get(r["tag"], 0) + 1
+        ctx.distinct.add((r["tag"], len(r["in"]), tuple(x["k"] for x in r["results"])[:3]))
+    recs = recs + drecs
+    # writer side
     trw = ctx.path("c06w.ndjson")
     ctx.run_mvh(["wlink", "-aux", "c06", "-out", trw, "-seed", ctx.seed, "-tier", ctx.tier])
     wrecs, frames = _writer.validate_links(ctx, trw, defs, clause_filter=lambda c: c in WRITER)
@@ -47,7 +60,7 @@ def run(ctx):
     ctx.cov["spec_signed_vectors"] = nvec
     ctx.cov["rule"] = ("reader: TLC-signed frames (3 keys x payload lengths 0,1,45,46,255) read by a real keyed reader untouched, with "
                        "every single bit flipped (long payloads: header/checksum/signature-block bits all, payload bits sampled), flag "
-                       "cleared, unsigned, as v1, with a wrong key, with a damaged signature tail; writer: frames emitted by keyed "
+                       "cleared, unsigned, as v1, with a wrong key, with a damaged signature tail; a reader with key AND dialect: spec-signed frames of 3 dialect messages canonical / with trailing zeros kept / with bytes beyond the known fields / of an unknown id (delivered), frames lengthened after signing with length and checksum repaired (refused); writer: frames emitted by keyed "
                        "streamwriter.Writer and frame.Writer.WriteMessage verified by SHA-256 in TLA+; a node with OutKey on three channels "
                        "(application messages, heartbeats, stream requests) with signature, link id and flag judged per wire; distinct = (tag, length, result kinds)")
     ctx.assumptions += ["SHA256.tla is FIPS 180-4 (asserted on three standard vectors)",
